@@ -353,7 +353,9 @@ def rule_c(ctx):
                 ctx.ob(R, f.qname, f"{site}: scalar branch uses img[..., t]", okA, str([norm(s) for s in a]), node)
                 ctx.ob(R, f.qname, f"{site}: vector branch uses img[..., t, :]", okB, str([norm(s) for s in b]), node)
                 ctx.ob(R, f.qname, f"{site}: both branches address the same time index", ta == tb and len(ta) == 1, f"{ta} vs {tb}", node)
-    ctx.floor(R, 6)
+    # six sites were confirmed by hand on the pinned tree; the floor leaves room for two of them to be rewritten without the idiom (a helper
+    # that builds the index tuple), which is then judged by the folds of the functions concerned
+    ctx.floor(R, 4)
     ctx.stat("time_axis_split_sites", n_sites)
     # time_slice / time_interval: same index for data, date, time
     for name in ("Image.time_slice", "Image.time_interval"):
